@@ -30,7 +30,6 @@ RANDOMNESS = ('random.', 'uuid.', 'secrets.', 'os.urandom', 'os.getpid', 'tempfi
 
 # listings of pydoctor's own installation (not of the documented input), with the reason
 OWN_RESOURCE_LISTINGS: Dict[str, str] = {
-    'pydoctor.extensions._importlib_resources_contents': 'lists pydoctor/extensions of the INSTALLATION (not an input): fixes the load order of the bundled extensions; their mixins, visitors and post-processors are assumed to commute (outputs compared for both orders on a project using all of them: identical) - an assumption, not decided',
     'pydoctor.extensions._importlib_resources_is_resource': 'any(...) over the listing: order-insensitive',
     'pydoctor.themes.get_themes': 'lists the bundled themes for the --theme choices (help text), not written to the output',
     'pydoctor.epydoc.markup.get_supported_docformats': 'lists the bundled parsers for the --docformat choices, not written to the output',
@@ -391,6 +390,15 @@ def run(repo: Repo, chk: Check, thorough: bool = False) -> None:
                 chk.ob('R18.2', key, True, f'own-resource listing: {OWN_RESOURCE_LISTINGS[f.qn]}', repo.loc(f.mod, c), kind='reasoned-exception')
             else:
                 verdict, why = classify_use(repo, sf, f, c)
+                if verdict != 'ok' and 'returned' in why:
+                    # the listing (or a list built from it) is what the function returns: judged where the callers consume it
+                    sites = [(g, cc) for g in repo.funcs.values() if '.test' not in g.mod.name for cc in calls_in(g, lambda cc: call_name(cc) == f.name)]
+                    res = [classify_use(repo, sf, g, cc) for g, cc in sites]
+                    if sites and all(v == 'ok' for v, _w in res):
+                        verdict, why = 'ok', 'returned; every caller sorts it or consumes it order-insensitively: ' + '; '.join(sorted({w for _v, w in res}))[:120]
+                    elif sites:
+                        badsite = next((g, cc) for (g, cc), (v, _w) in zip(sites, res) if v != 'ok')
+                        why = f'returned to {badsite[0].qn}, which uses it in listing order'
                 chk.ob('R18.2', key, verdict == 'ok',
                        why if verdict == 'ok' else 'directory listing used in file-system order (not sorted): the analysis order of '
                        'modules - and with it duplicate handling and page content - depends on the file system', repo.loc(f.mod, c))
